@@ -5,15 +5,7 @@
 //!   vfy replay <file.json>                      re-check one saved case, verbose
 //!   vfy replay-case <ID> <file.json>            same, machine-readable (used by the orchestrator)
 
-#![allow(dead_code)]
-mod ctl;
-mod fsx;
-mod gen;
-mod model;
-mod orch;
-mod props;
-mod runner;
-mod wctx;
+use vfy::{child, fsx, orch, props, runner, wctx};
 
 use serde_json::Value;
 use std::path::PathBuf;
@@ -95,6 +87,12 @@ fn main() {
             if r.is_err() {
                 std::process::exit(3);
             }
+        }
+        "child-run" => {
+            if std::env::var("VFY_NO_LIMITS").is_err() {
+                limits();
+            }
+            std::process::exit(child::child_main(args.get(2).map(|s| s.as_str()).unwrap_or("")));
         }
         "replay" | "replay-case" => {
             limits();
